@@ -118,8 +118,9 @@ def _aggregates(ctx):
     for node in graph.nodes:
         if node.kind == 'stmt' and isinstance(node.ast, ast.Assign) and \
                 N.txt(node.ast.targets[0]) == 'self.free_capacity':
-            good = _is_max_of(K.rexpr(up, node.ast.value),
-                              'self.free_capacity', up.params()[1])
+            good = _is_max_of(
+                K.value_at(up, graph, node, K.rexpr(up, node.ast.value)),
+                'self.free_capacity', up.params()[1])
             ctx.ob('C02.1', up, node, good,
                    'aggregate raised with the component-wise maximum')
             _parent_call_after(ctx, up, graph, node, up.name,
